@@ -82,7 +82,11 @@ class History:
         self.nss = POOL[:rng.choice([1, 2, 3])]
         # 'star': every handler is registered under the catch-all namespace
         # only (connect() without a namespace list then asks for '/')
-        self.style = rng.choice(['func', 'func', 'class', 'class', 'star'])
+        # 'mixed': connect / connect_error / disconnect are handled under
+        # the catch-all namespace, the application's events under each
+        # namespace itself
+        self.style = rng.choice(['func', 'func', 'class', 'class', 'star',
+                                 'mixed'])
         self.co = rng.random() < 0.6
         self.events = []
         self.accepted = {}
@@ -101,7 +105,17 @@ class History:
         self.up = False          # a connect() succeeded and no end since
         self.root_refused = False
         rec = self.rec
-        if self.style == 'star':
+        if self.style == 'mixed':
+            ctx.count('histories_with_lifecycle_handlers_under_catch_all')
+            h.on('connect', lambda ns: rec('connect', ns), '*', self.co)
+            h.on('connect_error', lambda ns, *a: rec('connect_error', ns,
+                                                     list(a)), '*', self.co)
+            h.on('disconnect', lambda ns, reason: rec('disconnect', ns,
+                                                      reason), '*', self.co)
+            for ns in self.nss:
+                h.on('ping', (lambda ns: lambda *a: rec(
+                    'event', ns, list(a)))(ns), ns, self.co)
+        elif self.style == 'star':
             h.on('connect', lambda ns: rec('connect', ns), '*', self.co)
             h.on('connect_error', lambda ns, *a: rec('connect_error', ns,
                                                      list(a)), '*', self.co)
@@ -958,6 +972,8 @@ def run(ctx):
         'current connection or after the connection ended']
     ctx.require('mirror_checks', 200)
     ctx.require('successful_connects', 30)
+    ctx.require('histories_with_lifecycle_handlers_under_catch_all', 5)
+    ctx.require('reconnection_namespace_sets_checked', 5)
     ctx.require('failed_connects', 10)
     ctx.require('nowait_connects', 10)
     ctx.require('bad_namespace_checked', 30)
